@@ -11,9 +11,9 @@ Definition start (w : world) : cfg := mkC 0 w [].
 Definition run_prog (p : prog) (cnt : nat -> nat) (ch : nat -> bool) (f : nat -> fault) (w : world) : res * cfg :=
   exec cnt ch f p (start w).
 
-(* the crash points of the property statement: the k-th executed step raises (an Exception)
+(* the crash points of the property statement: the k-th executed step raises an exception of kind e
    before doing anything; every other step works *)
-Definition crash_at (k : nat) : nat -> fault := fun i => if Nat.eqb i k then FBefore false else FNone.
+Definition crash_at (e : ekind) (k : nat) : nat -> fault := fun i => if Nat.eqb i k then FBefore e else FNone.
 Definition no_fault : nat -> fault := fun _ => FNone.
 
 Definition all_four (w : world) : bool := ex w && co w && so w && ix w.
@@ -27,11 +27,17 @@ Definition dec_world (v : Val) : world :=
   mkW (dec_status (getZ (nthV 0 v))) (getB (nthV 1 v)) (getB (nthV 2 v)) (getB (nthV 3 v)) (getB (nthV 4 v)) false.
 Definition enc_world (w : world) : Val :=
   VL [VZ (enc_status (st w)); ofB (ex w); ofB (co w); ofB (so w); ofB (ix w); ofB (lost w)].
+Definition dec_kind (z : Z) : ekind :=
+  match z with 0%Z => KRuntime | 1%Z => KValue | 2%Z => KOS | 3%Z => KTimeout | 4%Z => KMemory | 5%Z => KOther | _ => KBase end.
+Definition enc_kind (k : ekind) : Z :=
+  match k with KRuntime => 0 | KValue => 1 | KOS => 2 | KTimeout => 3 | KMemory => 4 | KOther => 5 | KBase => 6 end%Z.
+(* 0: works; 100+k: raises kind k before any effect; 200+k: raises kind k after a partial effect *)
 Definition dec_fault (z : Z) : fault :=
-  match z with 1%Z => FBefore false | 2%Z => FBefore true | 3%Z => FPartial false | 4%Z => FPartial true | _ => FNone end.
+  if Z.ltb z 100 then FNone
+  else if Z.ltb z 200 then FBefore (dec_kind (z - 100)) else FPartial (dec_kind (z - 200)).
 Fixpoint lookup (l : list (Z * Z)) (i : Z) : Z :=
   match l with [] => 0%Z | (k, v) :: l' => if Z.eqb k i then v else lookup l' i end.
-Definition enc_res (r : res) : Z := match r with RNormal => 0 | RExc => 1 | RBase => 2 end%Z.
+Definition enc_res (r : res) : Z := match r with RNormal => 0 | RRaised k => 1 + enc_kind k end%Z.
 
 Definition run_val (p : prog) (v : Val) : Val :=
   let w := dec_world (nthV 0 v) in
